@@ -473,6 +473,7 @@ impl Engine for C13 {
             }
         }
         st.add("sim.reference_processes", reference.evaluated);
+        st.add("sim.processes", reference.evaluated);
         ExecOut { violations, digest, nontrivial }
     }
 
